@@ -19,7 +19,9 @@ exist independently of any text.  For every writer route of xtuml/persist.py
   K  lean/PyxModel/Sql: the Lean writers produce the same eight texts character for character from the same
      metamodel; the Lean lexer + parser produce the same statement list as `loader.statements` for each of them
      (and for one concatenation of the three parts); the Lean build produces the same classes / identifiers /
-     associations / rows.
+     associations / rows; the links the Lean spec join (`linksOf`) derives from the key values of the generated metamodel
+     equal the links the real in-memory model holds, and `linksOf` of the metamodel the Lean side builds from the
+     written text equals the links of the really reloaded model.
 """
 import hashlib
 import json
@@ -164,6 +166,25 @@ def _load_obs(text):
     return [Sym('accepted'), stmts, b]
 
 
+def _link_pairs(m):
+    """per association (in the order of metamodel.associations) the sorted pairs [source row index, target row index],
+    each index within its class's storage, read from the target link"""
+    out = []
+    for ass in m.associations:
+        sl, tl = ass.source_link, ass.target_link
+        sidx = {id(x): i for i, x in enumerate(sl.to_metaclass.storage)}
+        tidx = {id(x): i for i, x in enumerate(tl.to_metaclass.storage)}
+        pairs = set()
+        for src in sl.to_metaclass.storage:
+            for tgt in tl.navigate(src):
+                pairs.add((sidx.get(id(src), -1), tidx.get(id(tgt), -1)))
+        for tgt in tl.to_metaclass.storage:
+            for src in sl.navigate(tgt):
+                pairs.add((sidx.get(id(src), -1), tidx.get(id(tgt), -1)))
+        out.append([list(p) for p in sorted(pairs)])
+    return out
+
+
 def _reload_text(texts):
     l = _x.ModelLoader()
     for t in texts:
@@ -200,6 +221,10 @@ def run_impl(case):
     nrows = len(spec['rows'])
     stats['rows'] = nrows
     stats['links'] = len(spec['links'])
+    if spec.get('prelinks') is not None:
+        stats['rewired_models'] = 1
+        stats['rewired_links'] = len(set((l['assoc'], l['src'], l['tgt']) for l in spec['prelinks']) ^
+                                     set((l['assoc'], l['src'], l['tgt']) for l in spec['links']))
     stats['assocs'] = len(spec['assocs'])
     stats['classes'] = len(spec['classes'])
 
@@ -298,7 +323,13 @@ def run_impl(case):
             type(e).__name__, str(e)[:300]))
 
     texts = [t_db, t_schema, t_inst, t_ident, f_db, f_s, f_i, f_u]
-    obs = [[Sym('texts')] + texts, [Sym('loads')] + [_load_obs(t) for t in texts] + [_load_obs(concat)]]
+    # the links the real in-memory model holds, and the links of the really reloaded model (serialize_database route)
+    try:
+        links_after = _link_pairs(_reload_text([t_db]))
+    except Exception:
+        links_after = Sym('none')
+    obs = [[Sym('texts')] + texts, [Sym('loads')] + [_load_obs(t) for t in texts] + [_load_obs(concat)],
+           [Sym('links'), _link_pairs(m), links_after]]
     hazard = any(isinstance(v, str) and any(h in v for h in ("'", '--', '\n', '\x00')) or
                  (isinstance(v, int) and not isinstance(v, bool) and abs(v) >= 2 ** 63)
                  for r in spec['rows'] for v in r['vals'])
@@ -357,15 +388,24 @@ def model_obs(case, ans):
     return ans
 
 
+def _all_links(spec):
+    return list(spec['links']) + list(spec.get('prelinks') or [])
+
+
 def shrink_candidates(case):
     spec = case['spec']
-    # drop a link, a row without links, an association without links, an identifier, a plain attribute value
-    for i in range(len(spec['links'])):
+    # drop a link / pre-link, a row without links, an association without links, an identifier, a plain attribute value
+    for key in ('links', 'prelinks'):
+        for i in range(len(spec.get(key) or [])):
+            s = json.loads(json.dumps(spec))
+            del s[key][i]
+            yield dict(case, spec=s)
+    if spec.get('prelinks') == []:
         s = json.loads(json.dumps(spec))
-        del s['links'][i]
+        del s['prelinks']
         yield dict(case, spec=s)
     linked = set()
-    for l in spec['links']:
+    for l in _all_links(spec):
         linked.add(l['src'])
         linked.add(l['tgt'])
     for i in range(len(spec['rows'])):
@@ -373,17 +413,17 @@ def shrink_candidates(case):
             continue
         s = json.loads(json.dumps(spec))
         del s['rows'][i]
-        for l in s['links']:
+        for l in _all_links(s):
             l['src'] -= (l['src'] > i)
             l['tgt'] -= (l['tgt'] > i)
         yield dict(case, spec=s)
-    used = set(l['assoc'] for l in spec['links'])
+    used = set(l['assoc'] for l in _all_links(spec))
     for i in range(len(spec['assocs'])):
         if i in used:
             continue
         s = json.loads(json.dumps(spec))
         del s['assocs'][i]
-        for l in s['links']:
+        for l in _all_links(s):
             l['assoc'] -= (l['assoc'] > i)
         yield dict(case, spec=s)
     for ci, c in enumerate(spec['classes']):
